@@ -1,5 +1,5 @@
 #!/bin/bash
-# usage: tools/confirm_seeded.sh <seeded-id> <property> <worktree> <patch> <demo-run-script> [demo files...]
+# usage: tools/confirm_seeded.sh <seeded-id> <property> <worktree> <patch> <demo-run-script | "cmd: <shell command run in the worktree>"> [demo files...]
 # Confirms an independently written property-breaking change in ITS scratch worktree:
 #   clean tree: demonstration passes; with the patch: builds (also -tags verif), pinned suite passes, demonstration fails.
 # On success stores it under /verif/seeded/<seeded-id>/ (patch.diff, demonstration files, run script, confirm.log).
@@ -10,8 +10,14 @@ LOG=$(mktemp)
 say() { echo "$@" | tee -a "$LOG"; }
 cd "$WT" || exit 2
 git checkout -q -- . || exit 2
+rundemo() {
+  case "$RUN" in
+    cmd:*) ( cd "$WT" && export WORKTREE="$WT" && eval "${RUN#cmd:}" ) ;;
+    *) bash "$RUN" "$WT" ;;
+  esac
+}
 say "== clean tree: demonstration"
-bash "$RUN" "$WT" >>"$LOG" 2>&1; RC0=$?
+rundemo >>"$LOG" 2>&1; RC0=$?
 say "demo on clean tree: rc=$RC0"
 git apply "$PATCH" || { say "patch does not apply"; exit 2; }
 source /tmp/qedenv/env.sh
@@ -22,12 +28,13 @@ say "== with patch: pinned suite"
 ( unset CGO_CFLAGS CGO_CXXFLAGS CGO_LDFLAGS CXX CGO_LDFLAGS_ALLOW; /tmp/qedenv/pinned_tests.sh "$WT" ) >>"$LOG" 2>&1; RCP=$?
 say "pinned suite: rc=$RCP"
 say "== with patch: demonstration"
-bash "$RUN" "$WT" >>"$LOG" 2>&1; RC1=$?
+rundemo >>"$LOG" 2>&1; RC1=$?
 say "demo with patch: rc=$RC1"
 git checkout -q -- .
 if [ $RC0 = 0 ] && [ $RCB = 0 ] && [ $RCP = 0 ] && [ $RC1 != 0 ]; then
   mkdir -p "$OUT"
-  cp "$PATCH" "$OUT/patch.diff"; cp "$RUN" "$OUT/run.sh"
+  cp "$PATCH" "$OUT/patch.diff"
+  case "$RUN" in cmd:*) echo "${RUN#cmd:}" > "$OUT/run_command.txt"; RS=$(echo "${RUN#cmd:}" | grep -o '/tmp/mut-[^ ]*run[0-9]*\.sh' | head -1); [ -n "$RS" ] && cp "$RS" "$OUT/run.sh";; *) cp "$RUN" "$OUT/run.sh";; esac
   for f in "$@"; do cp "$f" "$OUT/"; done
   [ -f "$(dirname "$PATCH")/notes.md" ] && cp "$(dirname "$PATCH")/notes.md" "$OUT/notes.md"
   tail -c 6000 "$LOG" > "$OUT/confirm.log"
